@@ -2,6 +2,10 @@ use crate::error::{ToSqlError, ToSqlResult};
 
 pub trait SqlBuilder {
     fn to_sql(self: Box<Self>) -> ToSqlResult<String>;
+    /// true when the emitted text is `(lhs) op (rhs)` and needs grouping before a postfix
+    fn is_binary(&self) -> bool {
+        false
+    }
 }
 
 pub trait IntoSqlBuilder {
@@ -55,6 +59,9 @@ impl SqlBuilder for BinaryOperationBuilder {
             self.operator.to_sql()?,
             self.rhs.to_sql()?
         ))
+    }
+    fn is_binary(&self) -> bool {
+        true
     }
 }
 
@@ -139,11 +146,11 @@ pub struct CastBuilder {
 
 impl SqlBuilder for CastBuilder {
     fn to_sql(self: Box<Self>) -> ToSqlResult<String> {
-        Ok(format!(
-            "{}::{}",
-            self.value.to_sql()?,
-            self.cast_type.to_sql()?
-        ))
+        if self.value.is_binary() {
+            Ok(format!("({})::{}", self.value.to_sql()?, self.cast_type.to_sql()?))
+        } else {
+            Ok(format!("{}::{}", self.value.to_sql()?, self.cast_type.to_sql()?))
+        }
     }
 }
 
